@@ -251,6 +251,9 @@ fn replay(rep: &serde_json::Value) -> Result<(bool, String), String> {
     }
     #[cfg(feature = "full")]
     {
+        if scenario == "c01.oods-binding" && rep["call"].as_str() == Some("free-product-page") {
+            return scen_c01::replay_free_product_page(rep);
+        }
         if scenario == "c01.oods-binding" {
             return scen_c01::replay_oods_binding(rep);
         }
